@@ -7,7 +7,7 @@ each path of `parse` under a scenario, using the idioms the repository actually 
 """
 import re
 
-from .interp import Interp, Scenario, Sym, Const, Bytes, render, render_items, merge_consts, render_item
+from .interp import Interp, Scenario, Sym, Const, Bytes, render, render_items, merge_consts, render_item, lin_norm, lin_add
 from .loader import AnalysisError
 
 
@@ -77,20 +77,22 @@ def mentions(text, buf):
 DELEGATES = ('MPI', 'ECPoint', 'SignatureSP', 'UserAttribute', 'Packet')
 
 
-def reader_sequence(state, buf='packet', cls=None):
+def reader_sequence(state, buf='packet', cls=None, recv='self'):
     """Ordered list of Read elements and consumption records from one interpreter path.
 
     Returns (reads, problems) where problems are (kind, message, line) for consume-what-you-read / alias-then-consume.
-    `cls` (ClassInfo) lets `self.x = packet` be recognised as a call of a consuming sdproperty setter rather than an alias."""
+    `cls` (ClassInfo) lets `self.x = packet` be recognised as a call of a consuming sdproperty setter rather than an alias
+    (`recv` = name of the receiver parameter of the method)."""
     reads = []
     problems = []
     pending = []        # fixed reads not yet consumed: (Read, (lo, hi))
     aliased = None      # (target, line) once the buffer was stored without copy
+    last_ctor = None    # Read of a consuming constructor call Klass(buf) whose result has not been bound yet
 
     def consuming_setter(target):
-        if cls is None or not target.startswith('self.') or '.' in target[5:]:
+        if cls is None or not target.startswith(recv + '.') or '.' in target[len(recv) + 1:]:
             return None
-        p = cls.find_prop(target[5:])
+        p = cls.find_prop(target[len(recv) + 1:])
         if p is None:
             return None
         for tn in ('bytearray', 'bytes'):
@@ -100,9 +102,19 @@ def reader_sequence(state, buf='packet', cls=None):
 
     for ev in state.events:
         kind = ev[0]
+        ctor, last_ctor = last_ctor, None
         if kind in ('store', 'assign'):
             target, val, line = ev[1], ev[2], ev[3]
+            if ctor is not None and (val == ctor.text or (kind == 'assign' and val == target)):
+                # x = Klass(buf) / self.f = Klass(buf): the object the constructor built from the buffer gets its name
+                ctor.target = target
+                continue
             if not mentions(val, buf):
+                # a local that holds an object built from the buffer earlier is stored into a field
+                hold = [r for r in reads if r.kind == 'delegate' and r.target is not None and r.target == val and not r.target.startswith(recv + '.')]
+                if hold and kind == 'store':
+                    hold[-1].locals.add(hold[-1].target)
+                    hold[-1].target = target
                 continue
             if val == buf:
                 if kind == 'store':
@@ -118,9 +130,10 @@ def reader_sequence(state, buf='packet', cls=None):
             if rhs_names and buf not in rhs_names:
                 src = [r for r in reads if r.target in rhs_names or (r.locals & set(rhs_names))]
                 if src:
-                    r = src[-1]
+                    exact = [r for r in src if r.target == val or val in r.locals]
+                    r = (exact or src)[-1]
                     if kind == 'store':
-                        if r.target is None or not r.target.startswith('self.'):
+                        if r.target is None or not r.target.startswith(recv + '.'):
                             r.locals.add(r.target)
                             r.target = target
                         else:
@@ -132,6 +145,9 @@ def reader_sequence(state, buf='packet', cls=None):
             m = re.search(r'\b([A-Za-z_][A-Za-z0-9_.]*)\(%s\)' % re.escape(buf), val)
             if m and m.group(1) in ('memoryview', 'len', 'bytes', 'bytearray'):
                 continue      # a view / copy / measurement of the buffer consumes nothing
+            if m and ctor is not None and val == ctor.text:
+                ctor.target = target
+                continue
             if m and slice_of(val, buf) is None:
                 reads.append(Read('delegate', target, None, val, line, via=m.group(1)))
                 if aliased:
@@ -163,6 +179,16 @@ def reader_sequence(state, buf='packet', cls=None):
             if sl[0] not in ('', '0'):
                 reads.append(Read('splice', None, '%s:%s' % sl, text, line))
                 continue
+            order = _tiling(pending, sl[1])
+            if order is not None and (len(pending) > 1):
+                # several reads at increasing offsets consumed by one del: they tile [0:hi) without gap or overlap; the field order
+                # is the order of the offsets
+                idx = sorted(reads.index(r) for r, _ in pending)
+                for i, (r, rs) in zip(idx, order):
+                    r.width = lin_add(rs[1], rs[0] or '0', -1)
+                    reads[i] = r
+                pending = []
+                continue
             for r, rs in pending:
                 if rs[0] not in ('', '0'):
                     problems.append(Problem('read-offset', 'read %s does not start at the front of the buffer' % r.text, r.line, r))
@@ -189,6 +215,12 @@ def reader_sequence(state, buf='packet', cls=None):
                         problems.append(('alias-then-consume', '%s consumes from the buffer after %s was aliased to it' % (ft, aliased[0]), line))
                 elif base in ('insert',):
                     reads.append(Read('insert', None, '-1', ft, line))
+                elif ft in DELEGATES and list(args) == [buf] and not kw:
+                    # Klass(buf): a constructor that consumes its own octets from the buffer; the next event binds the result
+                    last_ctor = Read('delegate', None, None, '%s(%s)' % (ft, buf), line, via=ft)
+                    reads.append(last_ctor)
+                    if aliased:
+                        problems.append(('alias-then-consume', '%s(%s) consumes from the buffer after %s was aliased to it' % (ft, buf, aliased[0]), line))
             else:
                 for a in allargs:
                     sl = slice_of(a, buf) if (a.startswith('SLICE(%s;' % buf) and a.endswith(')')) else None
@@ -199,6 +231,22 @@ def reader_sequence(state, buf='packet', cls=None):
     for r, rs in pending:
         problems.append(Problem('consume-what-you-read', 'read %s is never consumed' % r.text, r.line, r))
     return reads, problems
+
+
+def _tiling(pending, hi):
+    """Order in which the pending reads [(Read, (lo, hi))] cover [0:hi) exactly, or None."""
+    left = list(pending)
+    cur, out = '0', []
+    while left:
+        nxt = [p for p in left if lin_norm(p[1][0] or '0') == cur]
+        if len(nxt) != 1:
+            return None
+        left.remove(nxt[0])
+        out.append(nxt[0])
+        cur = lin_norm(nxt[0][1][1]) if nxt[0][1][1] != '' else None
+        if cur is None:
+            return None
+    return out if cur == lin_norm(hi) else None
 
 
 def _int(t):
